@@ -242,10 +242,11 @@ def load_findings():
 
 
 def pinned_reproducers(pid):
-    """Pinned reproducers of OPEN findings of this property: they are run on every invocation."""
+    """Pinned reproducers of the findings of this property, OPEN (expected to fail in the recorded way) and FIXED (regression
+    inputs: a fixed entry suppresses nothing, so if the failure returns it is a violation): run on every invocation."""
     out = []
     for f in load_findings():
-        if f.get("status") == "open" and pid in f.get("properties", []):
+        if f.get("status") in ("open", "fixed") and pid in f.get("properties", []):
             for k, r in enumerate(f.get("reproducers", [f["reproducer"]] if "reproducer" in f else [])):
                 r = dict(r)
                 r["id"] = "kf-%s-%d" % (f["id"], k)
